@@ -10,6 +10,9 @@ import (
 	"sort"
 	"strings"
 
+	"github.com/issue9/mux/v9"
+	"github.com/issue9/mux/v9/types"
+
 	"verifharness/mon"
 	"verifharness/ref"
 )
@@ -157,6 +160,31 @@ func (e *Engine) RunCase(res *Result, tier string, seed uint64, i int, verbose b
 	for n := mon.SiblingRouters.Swap(0); n > 0; n-- {
 		c.Class("router_built_between_hostile_siblings")
 	}
+	if i%4 == 0 && !c.Violated() {
+		crossFeatureProbe(c)
+	}
+}
+
+// Process-wide state every property leans on, probed after one case in four whatever the engine: the package-level
+// method tables are what they were before the first router existed, and after a little traffic of the other kinds
+// (a recovered panic, a router served through a group, the group's not-found path) the context pool still hands
+// out distinct, empty contexts - otherwise two overlapping requests would share route and parameters.
+var methodTablesAtStart = fmt.Sprint(mux.Methods(), mux.AnyMethods())
+
+func crossFeatureProbe(c *Ctx) {
+	if got := fmt.Sprint(mux.Methods(), mux.AnyMethods()); got != methodTablesAtStart {
+		c.Violate("the package-level method tables changed during the case (state shared by every router of the process)", map[string]any{"at_start": methodTablesAtStart, "now": got})
+		return
+	}
+	c20Traffic(c.R)
+	a, b := types.NewContext(), types.NewContext()
+	c.Class("cross_feature_probe")
+	if a == b || a.Count() != 0 || b.Count() != 0 || a.Path != "" || a.RouterName() != "" || a.Node() != nil || b.Node() != nil {
+		c.Violate(fmt.Sprintf("after the case plus a recovered panic and group traffic the context pool hands out the same or a non-empty context (same=%v count=%d/%d router=%q): a request context was returned to the pool twice or not reset, overlapping requests would share route and parameters", a == b, a.Count(), b.Count(), a.RouterName()), nil)
+		return
+	}
+	a.Destroy()
+	b.Destroy()
 }
 
 func (e *Engine) RunDirected(res *Result, tier string, seed uint64, d Directed, verbose bool) {
